@@ -13,7 +13,7 @@ def ret_of(name):
 
 
 def run(ck):
-    facts = ck.facts(["src/client_side_reply.cc", "src/client_side.cc", "src/http.cc", "src/store_key_md5.cc"], whole=False)
+    facts = ck.facts(["src/client_side_reply.cc", "src/client_side.cc", "src/http.cc", "src/store_key_md5.cc"], whole=True)
     hdr = facts.enum("Http::HdrType")
 
     # ------------------------------------------------------------------ V1: the hit path consults the variant check
@@ -131,6 +131,23 @@ def run(ck):
     fl = ck.flow(hp, assume=[(varies, True), (empty, True)], tracked=mayflags(ck, hp))
     ck.sites(ck.flow(hp), ev_call(PUBLISHERS), "makePublic|cacheNegatively", 2)
     ck.require_unreachable("V4.unusable-mark-private", fl, ev_call(PUBLISHERS), "publish", "a Vary reply with an empty vary mark", why="(a varying response without a usable mark would be cached under the base key)")
+    # ------------------------------------------------------------------ V5: where the entry's mark comes from
+    ck.rule("V5 WHO-writes(MemObject::vary_headers) = {HttpStateData::haveParsedReplyHeaders, Store::UnpackHitSwapMeta}; in haveParsedReplyHeaders the value stored is a local "
+            "every definition of which is httpMakeVaryMark(<this transaction's request>, <its final reply>)")
+    ck.who_writes("V5.who-marks-entries", facts, ENTRY_MARK, {"HttpStateData::haveParsedReplyHeaders": "mark of the storing request (checked below)",
+                                                               "Store::UnpackHitSwapMeta": "mark restored from the entry's own swap metadata"}, min_writers=2)
+    made = ck.m_result_of(hp, "httpMakeVaryMark")
+    for s in ck.sites(ck.flow(hp), ev_call("SBuf::operator=", obj=E.m_is_mem(ENTRY_MARK)), "mem_obj->vary_headers =", 1):
+        v = E.strip(E.strip(s.ev["x"])["a"][0])
+        calls = [E.strip(d) for d in ck.local_defs(hp).get(v.get("d"), [])] if v.get("k") == "ref" else [v]
+        calls = [next((c for c in E.calls_in(d) if c.get("f") == "httpMakeVaryMark"), None) for d in calls]
+        good = made(v) and calls and all(c is not None and len(c.get("a", [])) == 2 and "Client::request" in E.mentions(c["a"][0])
+                                          and "Client::finalReply" in ck.closure_mentions(hp, c["a"][1]) for c in calls)
+        if good:
+            ck.ok("V5.entry-mark-from-storing-request", s.where(), "entry->mem_obj->vary_headers = httpMakeVaryMark(request, finalReply())")
+        else:
+            ck.violation("V5.entry-mark-from-storing-request", "V5|haveParsedReplyHeaders|entry-mark-source", s.where(),
+                         "haveParsedReplyHeaders stores %s as the entry's vary mark, which is not exactly httpMakeVaryMark(this request, this reply)" % E.key(v))
     ck.assume("the equality semantics of the mark (escaping in rfc1738_escape_part, header folding/case of values, getByName merging) is not decided")
     ck.assume("store back ends are assumed to persist MemObject::vary_headers and the entry flags (STORE_META_VARY_HEADERS / swap meta are C10/C16 territory)")
     ck.assume("Vary:* entries are stored with ENTRY_REVALIDATE_ALWAYS; they are served only after a revalidation (C12), negative hits excepted (negative_ttl is 0 by default)")
